@@ -18,7 +18,11 @@ def duration(self: Transport):
 )
 def conti_velocity(self: Transport):
     if self.has_set_or_cached("length"):  # probably indicates conti process
-        return self.prev.velocity
+        try:
+            prev = self.prev
+        except (IndexError, ValueError):
+            return None  # no predecessor (first unit or not part of a sequence)
+        return prev.velocity
 
 
 @Transport.environment_temperature
@@ -33,8 +37,11 @@ def length_from_roll_pass_positions(self: Transport, cycle):
 
     from pyroll.core import RollPass
 
-    next_pass = self.next_of(RollPass)
-    prev_pass = self.prev_of(RollPass)
+    try:
+        next_pass = self.next_of(RollPass)
+        prev_pass = self.prev_of(RollPass)
+    except (IndexError, ValueError):
+        return None  # not enclosed by two roll passes (or not part of a sequence)
 
     if next_pass.has_value("location") and prev_pass.has_value("location"):
         entry = next_pass.entry_point if next_pass.has_value("entry_point") else 0
